@@ -4,6 +4,7 @@
 package tsscase
 
 import (
+	"bytes"
 	"encoding/hex"
 	"encoding/json"
 	"sort"
@@ -137,10 +138,24 @@ func (c *caseT) dump() fx.M {
 		"escrow": amounts(c.app.BankKeeper.GetAllBalances(c.ctx, c.app.AccountKeeper.GetModuleAddress(bandtsstypes.ModuleName))), "req": req}
 }
 
+// keysChanged lists the members whose registered public key is no longer the one key generation gave them (the key
+// every partial signature of the member is verified against)
+func (c *caseT) keysChanged() []int {
+	out := []int{}
+	for id := 1; id <= int(c.g.N); id++ {
+		tm, err := c.app.TSSKeeper.GetMember(c.ctx, c.g.GroupID, tss.MemberID(id))
+		if err != nil || !bytes.Equal(tm.PubKey, c.g.OwnPrivKeys[id-1].Point()) {
+			out = append(out, id)
+		}
+	}
+	return out
+}
+
 func (c *caseT) emit(m fx.M, errS string) {
 	out := c.dump()
 	out["err"] = errS
 	m["out"] = out
+	m["obs"] = fx.M{"keysChanged": c.keysChanged()}
 	c.tr.Op(m)
 }
 
